@@ -333,6 +333,9 @@ pub fn run_and_judge(ctx: &CaseCtx, l: &mut Local) {
         }
     }
     let obs = exec_typed(ctx.rule.typed, ctx.case, groups, budget);
+    if matches!(&obs.s.parse_partial, Res::Panic(k, _) if k == "step-budget") {
+        l.count("step_budget_blowups");
+    }
     let pest = (ctx.rule.pest)(s);
     l.evaluations += 1;
     let exp = expect(ctx, &pest, &full, l);
@@ -373,7 +376,7 @@ pub fn run_and_judge(ctx: &CaseCtx, l: &mut Local) {
         "C09" => c09(ctx, &obs, l),
         "C10" => c10(ctx, &obs, &full, exp.as_ref(), l),
         "C11" => c11(ctx, &obs, &full, l),
-        "C15" => c15(ctx, &obs, l),
+        "C15" => c15(ctx, &obs, exp.as_ref(), l),
         "C16" => c16(ctx, &obs, &full, exp.as_ref(), l),
         "C17" => c17(ctx, &obs, &full, exp.as_ref(), l),
         "C18" => c18(ctx, &obs, l),
@@ -1214,7 +1217,7 @@ fn c11(ctx: &CaseCtx, obs: &CaseObs, full: &Outcome, l: &mut Local) {
 // C15: traversal helpers
 // ---------------------------------------------------------------------------------------------
 
-fn c15(ctx: &CaseCtx, obs: &CaseObs, l: &mut Local) {
+fn c15(ctx: &CaseCtx, obs: &CaseObs, exp: Option<&Expect>, l: &mut Local) {
     let n = match &obs.s.parse_partial {
         Res::Ok(n) => n,
         _ => return,
@@ -1224,6 +1227,30 @@ fn c15(ctx: &CaseCtx, obs: &CaseObs, l: &mut Local) {
         None => return, // silent rule
     };
     l.count("pairs_checked");
+    // every helper below is built on children(): if that primitive drops or invents tokens they all
+    // agree with each other, so the token is also tied to the reference tree (what C02 does for
+    // self_or_children); a difference explained by a known finding of C02 carries that name
+    if let Some(exp) = exp {
+        if exp.end == Some(n.end) {
+            let want = prune(&exp.tokens, &ctx.model.kinds);
+            l.count("tokens_tied_to_reference");
+            if want.len() != 1 || want[0] != *root {
+                let sig = classify_tree(ctx, "C15", std::slice::from_ref(root), Some(n.end));
+                if sig.starts_with("C15/known/") {
+                    // exactly the tree a known finding of C02 predicts (extra tokens below skip rules):
+                    // the helpers enumerate the tree the library built, its content is C02's business
+                    l.count("token_tree_differs_by_a_known_finding_of_C02");
+                    return;
+                }
+                l.violation(
+                    sig,
+                    format!("as_token() (built from children()): typed {} reference {} ({})", tree_text(std::slice::from_ref(root)), tree_text(&want), exp.source),
+                    ctx.witness(json!({"typed": tree_text(std::slice::from_ref(root)), "expected": tree_text(&want), "oracle": exp.source})),
+                );
+                return;
+            }
+        }
+    }
     if let Some(ch) = &n.children {
         if *ch != root.children {
             l.violation("unclassified/C15/children", "children() differs from as_token().children", ctx.witness(json!({"children": tree_text(ch), "as_token": tree_text(&root.children)})));
